@@ -502,7 +502,9 @@ class SQLiteModel(data_algebra.db_model.DBModel):
                 temp_id_source=temp_id_source,
                 sql_format_options=sql_format_options,
             )
-        if join_node.jointype == "FULL":
+        if (join_node.jointype == "FULL") and (sqlite3.sqlite_version_info < (3, 39)):
+            # SQLite has FULL JOIN since 3.39; the replacement below needs same-named keys and
+            # does not keep rows whose key is null, so it is only used where there is no choice
             return self._emit_full_join_as_complex(
                 join_node,
                 using=using,
